@@ -28,10 +28,11 @@ def _range_of(it):
     return None
 
 
-def index_loop(body, h, enclosing_events=None):
-    """analyses loop h as an iteration over all indices (or all elements) of a vector"""
+def index_loop(body, h, enclosing_events=None, full=False):
+    """analyses loop h as an iteration over all indices (or all elements) of a vector; with full=True the paths
+    are followed beyond the loop to the end of the function (return values visible)"""
     il = IndexLoop()
-    paths = mir.walk_loop_only(body, h)
+    paths = mir.walk_loop_body(body, h) if full else mir.walk_loop_only(body, h)
     for p in paths:
         if p.outcome[0] in ("unreachable", "infeasible"):
             continue
